@@ -219,13 +219,33 @@ def run(rep, ctx):
         dis_all += dis
         fail_all += fails
 
+    # the same whether the history was recorded in this interpreter or came back from a snapshot: every cut point of
+    # history runs, restored interpreter vs the uninterrupted one (the comparison of C12, on this family)
+    from concurrent.futures import ProcessPoolExecutor
+    from harness.props import c12
+    jobs = []
+    for am, engine, runs, _ in family(rng, 300 if big else 60):
+        cx, events = runs[0]
+        for k in range(len(events) + 1):
+            jobs.append((am, engine, cx, events, k))
+    with ProcessPoolExecutor(max_workers=14) as ex:
+        rres = list(ex.map(c12.one, jobs, chunksize=4))
+    for (am, engine, cx, events, k), r in zip(jobs, rres):
+        for what, sig in c12.monitor_case(am, engine, cx, events, k, r):
+            fail_all.append(dict(case=dict(common.case_payload(am, engine, cx, events), cut=k), what="history through a snapshot: " + what, signature=sig))
+    rep.coverage.setdefault("components", {})["restore-vs-uninterrupted"] = dict(cut_points=len(jobs))
+
     def search(extra):
         _, fails, _ = common.run_macro_property(rep, ctx, "c11_search", family(random.Random(ctx["seed"] + 111), 400), monitor,
                                                 "search: 400 more history machines")
         return fails
     core.decide(rep, ctx["proof"], dis_all, fail_all, search)
-    rep.assumptions += ["restore from a snapshot is exercised by C12's check (history round-trip and continuation)"]
+    rep.assumptions += ["the model-level snapshot correspondence (K-snap) runs in C12's check; here the restored implementation is compared with "
+                        "the uninterrupted implementation"]
 
 
 def replay(payload):
+    if "cut" in (payload.get("case") or {}):
+        from harness.props import c12
+        return c12.replay(payload)
     return common.replay_macro(payload, monitor)
